@@ -61,7 +61,9 @@ Plan(a, b) ==
 
 Lim(r) == IF r.max < 0 \/ r.max > MaxResp THEN MaxResp ELSE r.max
 
-OnBest(nv, n) == {b \in SFAnc(nv.par, nv.best) : SFNum(nv.par, b) = n}
+(* the block with number n on the best chain *)
+OnBest(nv, n) == LET d == SFNum(nv.par, nv.best) - n
+                 IN IF d < 0 \/ n < 0 THEN {} ELSE {SFUp(nv.par, nv.best, d)}
 
 (* "the requested block" *)
 Requested(nv, r) ==
